@@ -147,7 +147,7 @@ class Response(AbstractResponse):
             result = json_data.get('result', UNSET)
             if result is UNSET and error is UNSET:
                 raise DeserializationError("'result' or 'error' fields must be provided")
-            if result and error:
+            if result is not UNSET and error is not UNSET:
                 raise DeserializationError("'result' and 'error' fields are mutually exclusive")
 
             return cls(id=id, result=result, error=error)
@@ -427,6 +427,8 @@ class BatchResponse(AbstractResponse):
 
                 id, error = json_data.get('id'), json_data.get('error', UNSET)
                 if id is None and error is not UNSET:
+                    if 'result' in json_data:
+                        raise DeserializationError("'result' and 'error' fields are mutually exclusive")
                     return cls(error=error_cls.from_json(json_data['error']))
 
             if not isinstance(json_data, (list, tuple)):
